@@ -219,7 +219,9 @@ def processLine (s : DState) (line : String) : DState × List String :=
     | "MASK" :: fs => ({ s with mask := fs }, [])
     | "H" :: rest =>
       let fs := parseFields rest
-      let cfg : Cfg := { R := fieldNat fs "R", debug := fieldNat fs "debug" == 1,
+      -- R is the constant of the properties (8), not what the crate reports: a different quota in
+      -- the crate must show up as a disagreement
+      let cfg : Cfg := { R := 8, debug := fieldNat fs "debug" == 1,
                          elemSize := fieldNat fs "elem", allocLimit := fieldNat fs "limit" }
       ({ s with cfg := cfg, maps := [], hist := (field? fs "id").getD "?", diverged := false,
                 hists := s.hists + 1 }, [])
